@@ -85,6 +85,10 @@ func runC08(e *Engine, g G, o RunOpt) RunInfo {
 			op.Kind = []string{"message", "presence", "iq"}[g.Weighted("kind", 6, 2, 2)]
 			if op.API == "SendIQ" {
 				op.Kind = "iq"
+			} else if g.Pct("sm-element", 8) {
+				// what an application sends need not be a stanza: an acknowledgement of its own making
+				// goes to the wire like anything else, whatever the stream-management setting
+				op.Kind = "sm-answer"
 			}
 			op.Size = []int{0, 0, 200, 5000, 40000, 66000}[g.Weighted("size", 5, 3, 3, 2, 1, 1)]
 			if sc.WebSocket && op.Size > 66000 {
@@ -139,6 +143,10 @@ func runC08(e *Engine, g G, o RunOpt) RunInfo {
 			p = stanza.Message{Attrs: stanza.Attrs{Id: op.ID, To: "peer@" + SimDomain, Type: stanza.MessageTypeChat}, Body: c08Body(op.ID, op.Size)}
 		case "presence":
 			p = stanza.Presence{Attrs: stanza.Attrs{Id: op.ID, To: "peer@" + SimDomain}, Status: c08Body(op.ID, op.Size)}
+		case "sm-answer":
+			h := uint(0)
+			fmt.Sscanf(op.ID, "s%d", &h)
+			p = stanza.SMAnswer{XMLName: xml.Name{Space: nsSM, Local: "a"}, H: 100000 + h}
 		default:
 			iq, _ := stanza.NewIQ(stanza.Attrs{Type: stanza.IQTypeGet, Id: op.ID, To: SimDomain})
 			iq.Payload = &stanza.Version{Name: c08Body(op.ID, op.Size)}
